@@ -153,19 +153,53 @@ def parseInst (body : List String) : Spec.Inst :=
     | ["fut", f, v] => { o with futs := o.futs ++ [(natD f, natD v)] }
     | _ => o) ⟨[], [], []⟩
 
+/-- `b:v` or `-` -/
+def parseRep (t : String) : Option (Nat × Nat) :=
+  match t.splitOn ":" with
+  | [b, v] => some (natD b, natD v)
+  | _ => none
+
+/-- body: the instance lines, plus the network observations `vote d b v` (node `d` answered `Accept(b, v)`
+    with `Accepted`), `aprop p b v` (`p` sent `Accept(b, v)`), `prm f b -|bm:vm` (`f` answered `Prepare(b)`
+    with a `Promise` reporting `bm:vm`); ballots as naturals `number * n + node`; `pcall p d|- v|-` (a `propose()`
+    call on node `p`: its reported decision before the call, what the returned future is resolved with right away) -/
 def judgeInstBlock (pfx : String) (body : List String) : List String :=
   match Spec.judgeInst pfx (parseInst body) with
-  | none => ["ok"]
   | some sig => [s!"viol {sig}"]
+  | none =>
+    let lo : List Spec.Vote := body.filterMap fun l =>
+      match toks l with | ["vote", d, b, v] => some (natD d, natD b, natD v) | _ => none
+    let own : List Spec.Vote := body.filterMap fun l =>
+      match toks l with | ["aprop", p, b, v] => some (natD p, natD b, natD v) | _ => none
+    let proms : List Spec.Prom := body.filterMap fun l =>
+      match toks l with | ["prm", f, b, r] => some (natD f, natD b, parseRep r) | _ => none
+    let calls : List (Option Nat × Option Nat) := body.filterMap fun l =>
+      match toks l with | ["pcall", _, b, r] => some (nat? b, nat? r) | _ => none
+    match Spec.judgePromises pfx lo (lo ++ own) proms with
+    | none =>
+      (match Spec.judgeCalls pfx calls with
+       | none => ["ok"]
+       | some sig => [s!"viol {sig}"])
+    | some sig =>
+      let bad := proms.find? fun p => !Spec.promiseCovers lo p || !Spec.promiseReal (lo ++ own) p
+      let det := match bad with
+        | some (f, b, r) => s!" node {f} promise for ballot {b} reports " ++
+            (match r with | some (bm, vm) => s!"{bm}:{vm}" | none => "nothing")
+        | none => ""
+      [s!"viol {sig}{det}"]
 
 /-! ### distributed lock -/
 
-def parseLockOp (ts : List String) : Option Lock.Op :=
+/-- `acqreq` / `relreq` are the event forms (`LockAcquireRequest` with a reply future, `LockReleaseRequest`):
+    the same operations; a release request reports nothing (second component = hide the result) -/
+def parseLockOp (ts : List String) : Option (Lock.Op × Bool) :=
   match ts with
-  | ["acquire", l, r] => some (.acquire (natD l) (natD r))
-  | ["try", l, r] => some (.tryAcquire (natD l) (natD r))
-  | ["release", l, t] => some (.release (natD l) (natD t))
-  | ["expire", l, t] => some (.expire (natD l) (natD t))
+  | ["acquire", l, r] => some (.acquire (natD l) (natD r), false)
+  | ["acqreq", l, r] => some (.acquire (natD l) (natD r), false)
+  | ["try", l, r] => some (.tryAcquire (natD l) (natD r), false)
+  | ["release", l, t] => some (.release (natD l) (natD t), false)
+  | ["relreq", l, t] => some (.release (natD l) (natD t), true)
+  | ["expire", l, t] => some (.expire (natD l) (natD t), false)
   | _ => none
 
 def showRes : Lock.Res → String
@@ -176,18 +210,23 @@ def showRes : Lock.Res → String
   | .ok b => if b then "true" else "false"
   | .unit => "-"
 
-def runLock (maxW : Nat) (body : List String) : List String :=
+/-- `falsyHolder`: the requester whose name is the empty string; `get_fencing_token` tests the truth value of
+    the holder and reports None for it -/
+def runLock (maxW : Nat) (falsyHolder : Option Nat) (body : List String) : List String :=
   let rec go (s : Lock.St) (k : Nat) : List String → List String
     | [] => []
     | l :: ls =>
       match parseLockOp (toks l) with
       | none => s!"bad-op {l}" :: go s (k + 1) ls
-      | some o =>
+      | some (o, hide) =>
         let r := Lock.step s o
         let st := r.1.locks o.lock
         let wake := match r.2.wake with | some (w, t) => s!" wake {w} {t}" | none => ""
-        let hold := match st.holder with | some h => s!"{h} {st.token}" | none => "- -"
-        s!"op {k} {l} -> {showRes r.2.res}{wake} | holder {hold} waiters {st.waiters.length}" :: go r.1 (k + 1) ls
+        let hold := match st.holder with
+          | some h => if some h == falsyHolder then s!"{h} -" else s!"{h} {st.token}"
+          | none => "- -"
+        let res := if hide then "-" else showRes r.2.res
+        s!"op {k} {l} -> {res}{wake} | holder {hold} waiters {st.waiters.length}" :: go r.1 (k + 1) ls
   go (Lock.init maxW) 0 body
 
 def judgeLockBlock (body : List String) : List String :=
@@ -323,6 +362,15 @@ def judgeElectionBlock (uniform : Bool) (body : List String) : List String :=
     | ["st", nd, kind, ht, t0, l0, t1, l1] =>
       some { node := natD nd, isHb := kind == "lhb", hterm := natD ht, t0 := natD t0, l0 := nat? l0, t1 := natD t1, l1 := nat? l1 }
     | _ => none
+  -- the enabledness hypothesis of the message-soup theorems: a delivered Victory / LeaderHeartbeat / Token was sent before
+  let unsent : Option String := (body.foldl (fun (acc : List (List String) × Option String) l =>
+      match toks l with
+      | "snt" :: rest => (rest :: acc.1, acc.2)
+      | "dlv" :: rest => if acc.2.isSome || acc.1.contains rest then acc else (acc.1, some (" ".intercalate rest))
+      | _ => acc) ([], none)).2
+  match unsent with
+  | some m => [s!"viol election/network/delivered-message-never-sent {m}"]
+  | none =>
   match Spec.judgeElSteps steps with
   | some sig =>
     let bad := steps.find? fun o => !Spec.staleHbOk o || !Spec.withinTermOk o
@@ -427,7 +475,8 @@ def handle (hdr : List String) (body : List String) : List String :=
   match hdr with
   | ["paxos", v, n, q1, q2] => runPaxos (variantOf v) (natD n) (natD q1) (natD q2) body
   | ["judge-inst", pfx] => judgeInstBlock pfx body
-  | ["lock", maxW] => runLock (natD maxW) body
+  | ["lock", maxW] => runLock (natD maxW) none body
+  | ["lock", maxW, fh] => runLock (natD maxW) (nat? fh) body
   | ["mpaxos", flex, n, q1, q2] => runMP (flex == "1") (natD n) (natD q1) (natD q2) body
   | ["judge-log", pfx] => judgeLogBlock pfx 0 0 0 false body
   | ["judge-log", pfx, n, q1, q2, mode] => judgeLogBlock pfx (natD n) (natD q1) (natD q2) (mode == "strict") body
